@@ -90,7 +90,27 @@ def o_program(inp):
     return got == want, f"{prog!r} on {inputs}: recorded {got}, expected {want}"
 
 
-ORACLES = {"history": o_history, "pop_arity": o_pop_arity, "program": o_program}
+def o_main(inp):
+    """through vyxal.main.execute_vyxal, the way the command line hands inputs over (as text): k explicit reads deliver
+    input k mod n — blank and whitespace-only inputs are inputs too (the empty string), no inputs at all give 0"""
+    import io, contextlib
+    from vyxal.main import execute_vyxal
+    from vyxal.helpers import vy_eval
+    from vyxal.elements import vy_str
+    inputs, reads, flags = inp["inputs"], inp["reads"], inp.get("flags", "")
+    buf = io.StringIO()
+    try:
+        with alarm(5), contextlib.redirect_stdout(buf):
+            execute_vyxal("?" * reads, "We" + flags, list(inputs), None, False)
+    except SystemExit:
+        pass
+    c = Context()
+    vals = [(x if "Ṡ" in flags else vy_eval(x, c)) for x in inputs]
+    want = vy_str([vals[k % len(vals)] if vals else 0 for k in range(reads)], c) + "\n"
+    return buf.getvalue() == want, f"{reads} reads on inputs {inputs} (flags {flags!r}) printed {buf.getvalue()!r}, expected {want!r}"
+
+
+ORACLES = {"main_inputs": o_main, "history": o_history, "pop_arity": o_pop_arity, "program": o_program}
 
 
 def lit(x):
@@ -184,6 +204,14 @@ def run(ctx, widen=False):
         prog, want = compile_history(ins, rand_tree(2))
         pcases.append({"prog": prog, "inputs": ins, "want": want})
     ctx.check_many("program", pcases)
+    # inputs as the command line gives them (text), blank ones included
+    TXT = ["1", "", "3", " ", "[1,2]", "x", "7", "`a`", "0", "\t"]
+    mcases = [{"inputs": list(t), "reads": r} for n_ in range(0, 4) for t in itertools.product(TXT[:7], repeat=n_) for r in (n_ + 2,)]
+    mcases += [{"inputs": [rng.choice(TXT) for _ in range(rng.randint(0, 4))], "reads": rng.randint(1, 7), "flags": rng.choice(["", "", "Ṡ"])} for _ in range(300)]
+    if not thorough:
+        mcases = mcases[::3]
+    ctx.bump("execute_vyxal input cases", len(mcases))
+    ctx.check_many("main_inputs", mcases, procs=1)
     ctx.bump("end-to-end programs", len(pcases))
     ctx.sample(pcases[0])
     ctx.sample({"inputs": [7, 8], "ops": [["e"], ["n", [5, 6]], ["i"], ["e"], ["i"], ["l"], ["i"]],
